@@ -30,6 +30,7 @@ import (
 	"math/big"
 	"os"
 	"path/filepath"
+	"strconv"
 	"strings"
 	"sync"
 	"time"
@@ -37,6 +38,9 @@ import (
 
 	"keepverif/harness/hx"
 
+	tsscrypto "github.com/bnb-chain/tss-lib/crypto"
+	"github.com/bnb-chain/tss-lib/ecdsa/keygen"
+	"github.com/bnb-chain/tss-lib/tss"
 	golog "github.com/ipfs/go-log/v2"
 
 	"github.com/keep-network/keep-core/pkg/beacon/dkg/result"
@@ -50,6 +54,7 @@ import (
 	"github.com/keep-network/keep-core/pkg/protocol/group"
 	"github.com/keep-network/keep-core/pkg/protocol/inactivity"
 	"github.com/keep-network/keep-core/pkg/tbtc"
+	"github.com/keep-network/keep-core/pkg/tecdsa"
 	tdkg "github.com/keep-network/keep-core/pkg/tecdsa/dkg"
 	tsig "github.com/keep-network/keep-core/pkg/tecdsa/signing"
 	"google.golang.org/protobuf/proto"
@@ -742,6 +747,22 @@ func callsite(which string) string {
 }
 
 func exec(op string) (string, string) {
+	if f := strings.Fields(op); len(f) == 3 && f[0] == "sessions" {
+		ok := true
+		var msgs []uint64
+		for _, t := range hx.SplitList(f[1]) {
+			v, err := strconv.ParseUint(t, 10, 63)
+			if err != nil || v == 0 {
+				ok = false
+			}
+			msgs = append(msgs, v)
+		}
+		k, err := strconv.Atoi(f[2])
+		if !ok || err != nil || k < 1 || k > 5 || len(msgs) == 0 || len(msgs) > 4 {
+			return "bad-op", "bad"
+		}
+		return execSessions(msgs, k)
+	}
 	if f := strings.Fields(op); len(f) == 2 && f[0] == "callsite" {
 		obs := callsite(f[1])
 		if obs == "bad-op" {
@@ -878,6 +899,171 @@ func sortStrings(s []string) {
 			s[j], s[j-1] = s[j-1], s[j]
 		}
 	}
+}
+
+// ---- sessions: the signing retry loop run for real, one seat, several attempts -------------------
+
+// blockClock is a manually driven block counter: waiters return exactly when the controller moves
+// the clock to their block (no wall-clock dependence).
+type blockClock struct {
+	mu  sync.Mutex
+	cur uint64
+	ch  chan struct{}
+}
+
+func (c *blockClock) set(b uint64) {
+	c.mu.Lock()
+	if b > c.cur {
+		c.cur = b
+	}
+	close(c.ch)
+	c.ch = make(chan struct{})
+	c.mu.Unlock()
+}
+func (c *blockClock) current() (uint64, error) {
+	c.mu.Lock()
+	defer c.mu.Unlock()
+	return c.cur, nil
+}
+func (c *blockClock) wait(ctx context.Context, b uint64) error {
+	for {
+		c.mu.Lock()
+		cur, ch := c.cur, c.ch
+		c.mu.Unlock()
+		if cur >= b {
+			return nil
+		}
+		select {
+		case <-ch:
+		case <-ctx.Done():
+			return ctx.Err()
+		}
+	}
+}
+
+type annEvent struct {
+	protocol, session string
+	handler           func(net.Message)
+}
+
+// sessChan records what the member under test sends: its readiness announcement (with the handler
+// its announcer registered just before) and the session id of the first signing protocol message.
+type sessChan struct {
+	mu       sync.Mutex
+	handlers []func(net.Message)
+	self     uint32
+	ann      chan annEvent
+	epk      chan string
+}
+
+func (c *sessChan) Name() string { return "c12-sessions" }
+func (c *sessChan) Recv(_ context.Context, h func(m net.Message)) {
+	c.mu.Lock()
+	c.handlers = append(c.handlers, h)
+	c.mu.Unlock()
+}
+func (c *sessChan) SetUnmarshaler(func() net.TaggedUnmarshaler) {}
+func (c *sessChan) SetFilter(net.BroadcastChannelFilter) error  { return nil }
+func (c *sessChan) Send(_ context.Context, m net.TaggedMarshaler, _ ...net.RetransmissionStrategy) error {
+	switch m.Type() {
+	case "protocol_announcer/announcement_message":
+		bytes, err := m.Marshal()
+		if err != nil {
+			return nil
+		}
+		var pbm announcerpb.AnnouncementMessage
+		if proto.Unmarshal(bytes, &pbm) != nil || pbm.SenderID != c.self {
+			return nil
+		}
+		c.mu.Lock()
+		h := c.handlers[len(c.handlers)-1]
+		c.mu.Unlock()
+		c.ann <- annEvent{pbm.ProtocolID, pbm.SessionID, h}
+	case "tecdsa_signing/ephemeral_public_key_message":
+		if sm, ok := m.(interface{ SessionID() string }); ok {
+			c.epk <- sm.SessionID()
+		}
+	}
+	return nil
+}
+
+// execSessions: op `sessions <m1,m2,...> <attempts>`; obs = the session ids handed to the signing
+// protocol, in order (per message, attempts 1..K).
+func execSessions(msgs []uint64, attempts int) (string, string) {
+	golog.SetAllLoggers(golog.LevelFatal) // the aborted attempts log errors by design
+	const self, start = 2, uint64(200)
+	delay, announcement, _, total := tbtc.VerifC12SigningAttemptBlocks()
+	operators := []chain.Address{address(1), address(1), address(1)}
+	mv := group.NewMembershipValidator(logger, operators, signing)
+	x, y := tss.EC().ScalarBaseMult([]byte{13})
+	pt, err := tsscrypto.NewECPoint(tss.EC(), x, y)
+	if err != nil {
+		panic(err)
+	}
+	share := tecdsa.NewPrivateKeyShare(keygen.LocalPartySaveData{ECDSAPub: pt})
+	gp := &tbtc.GroupParameters{GroupSize: 3, GroupQuorum: 3, HonestThreshold: 3}
+	unm := newFchan()
+	announcer.RegisterUnmarshaller(unm)
+
+	var sessions []string
+	for _, msg := range msgs {
+		clk := &blockClock{cur: start, ch: make(chan struct{})}
+		ch := &sessChan{self: self, ann: make(chan annEvent, 16), epk: make(chan string, 16)}
+		ctx, cancel := context.WithCancel(context.Background())
+		done := make(chan error, 1)
+		go func() {
+			done <- tbtc.VerifC12Sign(ctx, share.PublicKey(), operators, self, share, ch, mv, gp,
+				clk.current, clk.wait, uint(attempts), new(big.Int).SetUint64(msg), start)
+		}()
+		fail := ""
+		for k := 0; k < attempts && fail == ""; k++ {
+			attemptStart := start + uint64(k)*total
+			clk.set(attemptStart + delay) // announcement phase opens (past the previous attempt's timeout)
+			select {
+			case ev := <-ch.ann:
+				// the two other seats announce for the same protocol and session
+				for _, seat := range []uint32{1, 3} {
+					payload := unm.unmarshaler()
+					bytes, _ := proto.Marshal(&announcerpb.AnnouncementMessage{
+						SenderID: seat, ProtocolID: ev.protocol, SessionID: ev.session})
+					if payload.Unmarshal(bytes) != nil {
+						panic("harness: announcement unmarshal")
+					}
+					ev.handler(&fmsg{payload: payload, key: keyBytes(1)})
+				}
+				s, seen := sentinel()
+				ev.handler(s)
+				select {
+				case <-seen:
+				case <-time.After(waitTimeout):
+					fail = "err:announcer-stuck"
+				}
+			case <-time.After(waitTimeout):
+				fail = fmt.Sprintf("err:no-announcement-in-attempt-%d", k+1)
+			}
+			if fail != "" {
+				break
+			}
+			clk.set(attemptStart + delay + announcement) // announcement phase closes
+			select {
+			case sid := <-ch.epk:
+				sessions = append(sessions, sid)
+			case <-time.After(waitTimeout):
+				fail = fmt.Sprintf("err:no-protocol-message-in-attempt-%d", k+1)
+			}
+		}
+		cancel()
+		clk.set(start + uint64(attempts+2)*total)
+		select {
+		case <-done:
+		case <-time.After(waitTimeout):
+			fail = "err:sign-did-not-return"
+		}
+		if fail != "" {
+			return fail, "err"
+		}
+	}
+	return hx.JoinStrs(sessions), "sessions"
 }
 
 // ---- generator ------------------------------------------------------------
@@ -1194,7 +1380,8 @@ func gen(r *hx.Rng, n int, tier string) []string {
 		ops = append(ops, fmtOp(o))
 	}
 	if n > 0 {
-		ops = append(ops, "mv - 1,2 2 - - - 1 1 1 0 - 1:1:1", "nonsense", "callsite signing", "callsite dkg")
+		ops = append(ops, "mv - 1,2 2 - - - 1 1 1 0 - 1:1:1", "nonsense", "callsite signing", "callsite dkg",
+			fmt.Sprintf("sessions %d,%d,%d 4", r.Range(1, 1<<30), r.Range(1, 300), uint64(r.U64()>>2)|1))
 	}
 	return ops
 }
